@@ -1,10 +1,11 @@
 #!/bin/bash
 # tools/seeds.sh <tier> <seed>... : run every check with the given seeds, print one line per run
 tier=$1; shift
-cd /verif
+cd "$(dirname "$0")/.."
 for s in "$@"; do
   for p in C01 C02 C03 C04 C05 C06 C07 C08 C09 C10 C11 C12 C13 C14 C15 C16 C17 C18 C19 C20; do
-    out=$(VERIF_SEED=$s ./run.sh $p $tier 2>&1 | grep -E "^(OK|VIOLATION|INCONCLUSIVE|KNOWN-FINDING|  stage=)" | cut -c1-400 | tr '\n' ' ')
-    echo "seed=$s $p $out"
+    t0=$(date +%s)
+    out=$(VERIF_SEED=$s ./run.sh $p $tier 2>&1 | grep -E "^(OK|VIOLATION|INCONCLUSIVE|KNOWN-FINDING|  stage=|fuzz |C[0-9]+ (quick|thorough))" | cut -c1-300 | tr '\n' ' ')
+    echo "seed=$s $p $(( $(date +%s) - t0 ))s $out"
   done
 done
